@@ -182,4 +182,37 @@ def kd_cases(rng, tier, checks=frozenset({"rt", "valid", "consumed", "corr"})):
             rows = [[rng.randint(0, 3), rng.randint(0, 3)] for _ in range(n)]
         g = G.Geom(False, n, [], [_attr(rng, G.GENERIC, DT[d], 2, False, 0, n, rows=rows)])
         cases.append(_case(rng, g, checks, "shapes"))
+    # 8. several quantized float attributes of distinct types, the later ones with fewer components; the
+    #    transform of an earlier type is skipped but not that of a later one
+    for k in range(10 if not thorough else 30):
+        types = rng.sample([G.POSITION, G.TEX_COORD, G.GENERIC, G.COLOR], rng.randint(2, 3))
+        ncs = sorted((rng.randint(1, 4) for _ in types), reverse=rng.random() < 0.7)
+        specs = [(t, DT["f32"], nc, False, uid) for uid, (t, nc) in enumerate(zip(types, ncs))]
+        if rng.random() < 0.4:
+            specs.insert(rng.randint(0, len(specs)), (G.GENERIC if G.GENERIC not in types else G.NORMAL, DT[rng.choice(INT_TYPES)], rng.randint(1, 2), False, 7))
+        g = _geom(rng, specs, rng.choice([1, 4, 30, 100]))
+        toks, info = _options(rng, g, want_skip=False)
+        sk = "".join(str(t) for t in sorted(types[:rng.randint(1, len(types) - 1)]))
+        toks.append(f"skip={sk}")
+        info["skip"] = sk
+        c = e2e.make_case(g, toks, info, checks, tags=("pc", "kd", "kdfam:floats", "expert" if info["expert"] else "encoder"))
+        c.mtag = e2e.model_support_tag
+        cases.append(c)
+    # 9. a tree node holding exactly 64 points (the boundary of the explicit axis coding of level 6) below the root:
+    #    64 points on one side of the first split on axis 0, more than 64 on the other, other axes spread out
+    for k in range(8 if not thorough else 24):
+        dim = rng.randint(2, 4)
+        d = rng.choice(["u16", "u32", "u8"])
+        top = LIMITS[DT[d]][1] + 1
+        other = rng.randint(90, 180)
+        low64 = rng.random() < 0.5
+        rows = []
+        for i in range(64 + other):
+            in64 = i < 64
+            x = rng.randrange(0, top // 2) if in64 == low64 else rng.randrange(top // 2, top)
+            # the other axes are balanced around their first split so that axis 0 has the largest deviation
+            rows.append([x] + [rng.randrange(0, top // 2) + (top // 2) * ((i + j) % 2) for j in range(dim - 1)])
+        rng.shuffle(rows)
+        g = G.Geom(False, len(rows), [], [_attr(rng, G.GENERIC, DT[d], dim, False, 0, len(rows), rows=rows)])
+        cases.append(_case(rng, g, checks, "node64", level=6))
     return cases
